@@ -243,8 +243,43 @@ def run(sh):
             r, g, b = rng.range(0, 255), rng.range(0, 255), rng.range(0, 255)
             al = rng.choice([1, 0, 0.5, 0.25, 0.999])
             c = "rgba(%d, %d, %d, %s)" % (r, g, b, al)
-            k = rng.below(12)
+            k = rng.below(14)
             x = rng.choice([-1, 0, 0.5, 1, 50, 100, 101, 255, 256, 300, -300, 1.5])
+            if k >= 12:
+                # adjust-/scale-/change-color with 1-3 keyword arguments of one colour space plus (often) $alpha, values
+                # in and beyond their ranges: whatever is accepted must be a colour inside the value domain, and the
+                # alpha of adjust-color is the clamped sum
+                fn = rng.choice(["adjust-color", "adjust-color", "scale-color", "change-color"])
+                space = rng.choice([["red", "green", "blue"], ["hue", "saturation", "lightness"], ["hue", "whiteness", "blackness"]])
+                kws = rng.sample(space, rng.range(1, 3))
+                parts = []
+                for kw in kws:
+                    if fn == "scale-color":
+                        if kw == "hue":
+                            continue
+                        parts.append("$%s: %s%%" % (kw, rng.choice([-100, -50, 0, 30, 100])))
+                    elif kw == "hue":
+                        parts.append("$hue: %sdeg" % rng.choice([-720, -30, 0, 30, 400]))
+                    elif kw in ("red", "green", "blue"):
+                        parts.append("$%s: %s" % (kw, rng.choice([-300, -10, 0, 10, 255, 300])))
+                    else:
+                        parts.append("$%s: %s%%" % (kw, rng.choice([-100, -10, 0, 10, 100])))
+                da = None
+                if rng.chance(0.7):
+                    if fn == "scale-color":
+                        parts.append("$alpha: %s%%" % rng.choice([-100, -50, 0, 50, 100]))
+                    elif fn == "change-color":
+                        parts.append("$alpha: %s" % rng.choice([0, 0.3, 1]))
+                    else:
+                        da = rng.choice([-1, -0.5, -0.2, 0, 0.2, 0.5, 1])
+                        parts.append("$alpha: %s" % da)
+                if not parts:
+                    continue
+                e = "%s(%s, %s)" % (fn, c, ", ".join(parts))
+                m = ("adjust-alpha", al, da) if da is not None else ("range",)
+                exprs.append(e)
+                meta.append(m)
+                continue
             if k == 0:
                 e, m = "rgb(%s, %s, %s)" % (r + rng.choice([-300, 0, 300]), g, x), ("range",)
             elif k == 1:
@@ -296,6 +331,11 @@ def run(sh):
                 have = [probe.f64(c["a"]) for c in d["v"]]
                 if any(abs(w - h) > 1e-9 for w, h in zip(want, have)):
                     sh.violation("opacity:" + e, "opacify/transparentize do not add/subtract and clamp: alphas %s, expected %s" % (have, want), {"expr": e}, {"expr": e})
+            elif m[0] == "adjust-alpha":
+                have = probe.f64(d["a"]) if d.get("t") == "c" else None
+                want = min(1.0, max(0.0, m[1] + m[2]))
+                if have is None or abs(have - want) > 1e-9:
+                    sh.violation("adjust-alpha:" + e, "`%s`: alpha is %s, the clamped sum is %s" % (e, have, want), {"expr": e}, {"expr": e, "alpha": have})
             elif m[0] in ("scale", "adjust", "change"):
                 v = probe.f64(d["bits"]) if d.get("t") == "n" else None
                 if m[0] == "scale":
